@@ -314,6 +314,7 @@ class FFTMTF:
                 of rays, wavelength, and F-number.
         """
         Q = self.grid_size / self.num_rays
-        dx = Q / (self.wavelength * self.FNO)
+        # MTF sample spacing = 1 / (grid_size * PSF pixel), in cycles/mm
+        dx = Q / (self.wavelength * 1e-3 * self.FNO * self.grid_size)
 
         return dx
